@@ -126,7 +126,8 @@ pub struct PerftCase {
 }
 
 pub struct PerftPlay {
-    pub max_depth: u8,
+    /// node budget per case
+    pub budget: f64,
 }
 
 fn oracle_divide(p: &Pos, depth: usize) -> (u64, Vec<(Mv, u64)>) {
@@ -139,6 +140,20 @@ fn oracle_divide(p: &Pos, depth: usize) -> (u64, Vec<(Mv, u64)>) {
     }
     div.sort();
     (total, div)
+}
+
+/// Deepest depth (1..=7) whose perft stays near `budget` nodes, judged from the branching at the
+/// root and one ply below. Sparse positions go deep: that is where the walk meets the same position
+/// through different move orders, which a walk that remembers positions would have to get right.
+pub fn adaptive_depth(p: &Pos, budget: f64) -> usize {
+    let legal = p.legal();
+    if legal.is_empty() {
+        return 1;
+    }
+    let b1 = legal.len() as f64;
+    let b2 = legal.iter().map(|(_, n)| n.legal().len()).sum::<usize>() as f64 / b1;
+    let b = ((b1 * b2.max(1.0)).sqrt()).max(1.5);
+    ((budget.ln() / b.ln()).floor() as usize).clamp(1, 7)
 }
 
 pub fn check_perft(p: &Pos, depth: usize) -> Result<u64, String> {
@@ -179,25 +194,25 @@ impl Prop for PerftPlay {
         "perft_play"
     }
     fn strategy(&self, _: &Ctx) -> BoxedStrategy<PerftCase> {
-        (gen::play_strategy(40), 1u8..=self.max_depth)
+        (gen::play_strategy(40), 0u8..=5)
             .prop_map(|(game, depth)| PerftCase { game, depth })
             .boxed()
     }
     fn test(&self, _: &Ctx, case: &PerftCase, loc: &mut Local) -> Result<(), String> {
         let played = gen::play(starts(), &case.game);
         let p = played.positions.last().unwrap();
-        // keep the node count bounded: busy positions get one ply less
-        let mut depth = case.depth as usize;
-        if p.legal().len() > 35 && depth > 2 {
-            depth -= 1;
-        }
+        // as deep as the node budget allows; a third of the cases one or two plies less
+        let less = match case.depth { 4 => 1, 5 => 2, _ => 0 };
+        let depth = adaptive_depth(p, self.budget).saturating_sub(less).max(1);
         let total = check_perft(p, depth)?;
         loc.eval();
         loc.class(match depth {
             1 => "depth1",
             2 => "depth2",
             3 => "depth3",
-            _ => "depth4plus",
+            4 => "depth4",
+            5 => "depth5",
+            _ => "depth6plus",
         });
         if depth >= 2 {
             loc.nontrivial(&(p.fen4(), depth));
@@ -216,12 +231,12 @@ impl DynProp for PerftStandard {
         "perft_standard"
     }
     fn run(&self, ctx: &Ctx, cases: u64) {
-        // `cases` = depth for the corpus walk
-        let depth = cases as usize;
+        // `cases` = node budget per corpus position
+        let budget = cases as f64;
         let n = starts().len() as u64;
         par_range(ctx, "perft_standard", n, |i, loc| {
             let p = &starts()[i as usize];
-            let d = if p.legal().len() > 40 { depth.saturating_sub(1).max(1) } else { depth };
+            let d = adaptive_depth(p, budget);
             match check_perft(p, d) {
                 Ok(total) => {
                     loc.eval();
@@ -311,10 +326,10 @@ pub fn plan(ctx: &Ctx) -> Plan {
     let t = ctx.tier;
     Plan {
         props: vec![
-            (Box::new(PerftStandard), t.pick(3, 4)),
+            (Box::new(PerftStandard), t.pick(600_000, 60_000_000)),
             (Box::new(MovegenPlay { max_plies: 120 }), t.pick(150_000, 4_000_000)),
             (Box::new(MovegenBuild), t.pick(1_500_000, 20_000_000)),
-            (Box::new(PerftPlay { max_depth: t.pick(3, 4) }), t.pick(30_000, 400_000)),
+            (Box::new(PerftPlay { budget: t.pick(60_000, 1_000_000) as f64 }), t.pick(6_000, 40_000)),
             (Box::new(MovegenSmall), 1),
             (Box::new(super::cli::PerftCli), t.pick(96, 2_000)),
             (Box::new(crate::fuzzdrv::target("rules_diff")), t.pick(0, 20_000)),
@@ -324,7 +339,7 @@ pub fn plan(ctx: &Ctx) -> Plan {
                king and rook at home, constructed en-passant targets), from the start corpus itself and from the \
                K+X v K families (complete: exhaustive). For each position the sorted \
                multiset of weechess move attribute tuples is compared with an independent mailbox rules oracle; \
-               perft totals and per-root-move subtotals likewise (library and CLI). Non-trivial = distinct 4-field \
+               perft totals and per-root-move subtotals likewise (library and CLI), at the deepest depth (1-7) a node budget allows for the position, so that sparse positions are walked 5-7 plies deep. Non-trivial = distinct 4-field \
                FEN where pseudo-legal != legal, or a castling right or en-passant target is set, or a pawn stands \
                on its 7th rank; perft cases count as non-trivial at depth >= 2.",
         assumptions: &[
